@@ -152,6 +152,40 @@ def eval_blocked(args):
     return dict(args=args, cases=n, bad=bad[:3])
 
 
+ENC_DOCS = {'unknown-encoding': b'<?xml version="1.0" encoding="foo-8"?><t:r xmlns:t="urn:t"/>', 'multi-byte-encoding': b'<?xml version="1.0" encoding="utf-7"?><t:r xmlns:t="urn:t"/>',
+            'utf-16-declared-utf-8': '<?xml version="1.0" encoding="utf-8"?><t:r xmlns:t="urn:t"/>'.encode('utf-16'), 'utf-32': '<t:r xmlns:t="urn:t"/>'.encode('utf-32'),
+            'bad-byte-in-utf-8': b'<?xml version="1.0" encoding="utf-8"?><t:r xmlns:t="urn:t">\xe9</t:r>', 'ebcdic': '<?xml version="1.0" encoding="cp037"?><t:r xmlns:t="urn:t"/>'.encode('cp037'),
+            'empty-encoding': b'<?xml version="1.0" encoding=""?><t:r xmlns:t="urn:t"/>', 'latin-1': '<?xml version="1.0" encoding="iso-8859-1"?><t:r xmlns:t="urn:t">\xe9</t:r>'.encode('latin-1'),
+            'encoding-in-doctype-doc': b'<?xml version="1.0" encoding="foo-8"?><!DOCTYPE r [<!ENTITY e "x">]><t:r xmlns:t="urn:t">&e;</t:r>'}
+
+
+def encodings():
+    """documents whose encoding declaration the parser does not know, does not support or that lies about the bytes: a verdict or an exception of the library hierarchy,
+    from every source kind, eager and lazy, with and without the defusing pass"""
+    import io, os, tempfile, xmlschema
+    s = _cls('1.0')(docgen.schema_for('1.0')); fails = []; n = 0
+    for name, data in ENC_DOCS.items():
+        fd, path = tempfile.mkstemp(prefix='verif_c11_', suffix='.xml'); os.write(fd, data); os.close(fd)
+        try:
+            for kind, mk in (('bytes', lambda: data), ('path', lambda: path), ('BytesIO', lambda: io.BytesIO(data)), ('open-binary', lambda: open(path, 'rb'))):
+                for lazy, defuse in ((False, 'remote'), (True, 'remote'), (False, 'always'), (True, 'always')):
+                    for api in ('is_valid', 'iter_errors', 'lax-decode'):
+                        n += 1; src = mk()
+                        try:
+                            r = xmlschema.XMLResource(src, lazy=lazy, defuse=defuse)
+                            if api == 'is_valid': s.is_valid(r)
+                            elif api == 'iter_errors': list(s.iter_errors(r))
+                            else: s.decode(r, validation='lax')
+                        except xmlschema.XMLSchemaException: pass
+                        except Exception as e:
+                            if len(fails) < 12: fails.append(dict(case=dict(encoding_doc=name, source=kind, lazy=lazy, defuse=defuse, api=api), observed=f'{type(e).__name__}: {str(e)[:80]}', required='a verdict or an exception of the library hierarchy'))
+                        finally:
+                            if hasattr(src, 'close'): src.close()
+        finally: os.unlink(path)
+    return result('C11.encoding_declarations', f'{len(ENC_DOCS)} byte documents with unknown / unsupported / wrong encoding declarations x 4 source kinds x eager / lazy x defuse remote / always x 3 entry points', n, fails, exhaustive=True,
+                  samples=[dict(doc='<?xml version="1.0" encoding="foo-8"?>...')])
+
+
 def run(tier, seed, open_findings):
     rng = random.Random(seed); n = 12000 if tier == 'thorough' else 300
     docs = []
@@ -214,10 +248,13 @@ def run(tier, seed, open_findings):
                 if 'C11-recursion-error-deep-nesting' in open_findings: known['C11-recursion-error-deep-nesting'] = known.get('C11-recursion-error-deep-nesting', 0) + 1
                 else: deep.append(dict(case=dict(ver=ver, depth=depth), observed='RecursionError', required='verdict or library error (depth is below MAX_XML_DEPTH = 1000)'))
     out.append(result('C11.deep_nesting', 'recursive element nested 100, 300 and 900 levels (below MAX_XML_DEPTH), both classes', 6, deep, exhaustive=True, known=known, samples=[dict(depth=300)]))
+    out.append(encodings())
     return out
 
 
 def replay(check_name, case):
+    if case.get('encoding_doc'):
+        r = encodings(); mine = [f for f in r['failures'] if f['case'] == case]; return dict(ok=not mine, observed=mine[:1], required='a verdict or a library exception')
     if case.get('blocked'):
         r = eval_blocked(tuple(case['args'])); mine = [b for b in r['bad'] if b[0] == case['doc']]
         return dict(ok=not mine, observed=mine, required='lax and skip never raise')
